@@ -80,9 +80,12 @@ impl LocalClient {
     let ghost sb = self.seg_bytes(segs);
 //@ loop 1
         invariant
-            segs == file_info.segments@, sb == self.seg_bytes(segs), segs == self.file_record(*hash),
+            segs == file_info.segments@,
+            sb == self.seg_bytes(segs),
+            segs == self.file_record(*hash),
             0 <= vx_it1.index@ <= segs.len(),
-            file_vec@ == cat(sb, vx_it1.index@),
+            // bytes assembled so far == concatenation of the first k segments' bytes
+            /*@C01*/ file_vec@ == cat(sb, vx_it1.index@),
 //@ after `file_vec.append(&mut entry_bytes);`
             proof {
                 let k = vx_it1.index@;
